@@ -200,6 +200,17 @@ func (s *SimStore) ReceiveBlob(ctx context.Context, br blob.Ref, source io.Reade
 		s.St.LogEvent("recv-ret", br.String(), false)
 		return blob.SizedRef{}, injected(s.name(), "ReceiveBlob", kind)
 	}
+	if kind == FShortStore && len(all) > 0 {
+		short := all[:len(all)-1]
+		s.St.mu.Lock()
+		if _, had := s.St.M[br.String()]; !had {
+			s.St.M[br.String()] = short
+		}
+		s.St.Log = append(s.St.Log, StoreEvent{Seq: simcore.Seq(), Op: "recv", Ref: br.String(), OK: false})
+		s.St.mu.Unlock()
+		s.St.LogEvent("recv-ret", br.String(), false)
+		return blob.SizedRef{Ref: br, Size: uint32(len(short))}, nil
+	}
 	s.St.mu.Lock()
 	if _, had := s.St.M[br.String()]; !had {
 		s.St.M[br.String()] = all
